@@ -276,6 +276,12 @@ let run_case (env : mdesc array) (envl : mdesc list) (line : string) : string op
                                    (hex_of_bytes st.b_data) (List.length sizes)
                                    (if sizes = [] then "-" else String.concat "," sizes)
                                    nfree (if fscr then 1 else 0) (List.length (live_blocks st2.b_log))))
+       | "WFCANON" ->
+         (* model only: is the message in the domain of the C02 (wf) and C01 (canonical) theorems? *)
+         let m = parse_msg t in
+         Buffer.add_string b (Printf.sprintf "W %d %d %d"
+                                (if WF.wf_msg envl m then 1 else 0) (if Canon.canon_msg envl m then 1 else 0)
+                                (if Canon.env_ok envl then 1 else 0))
        | op -> Buffer.add_string b ("ERR unknown op " ^ op)
      with
      | Failure s -> Buffer.clear b; Buffer.add_string b ("ERR " ^ s)
